@@ -9,13 +9,19 @@ From Verif Require Import SI.Model SI.ProofsTrans SI.ProofsRead SI.ProofsKeyed M
      Mvcc.ProofsKstep Mvcc.ProofsShape Mvcc.ProofsStep Mvcc.ProofsMarker.
 
 (* ------------------------------------------------------------------ model *)
-Record astore := mkA { a_st : store; a_max : ts; a_tbl : list (key * ts * ts) (* key, start, min_commit_ts of the lock *) }.
+(* the store of ONE region (the one holding the keys under consideration; requests naming a key go to its region, other
+   regions are independent copies): a_max is that region's max_ts on its current leader, a_sync = "max_ts synced" *)
+Record astore := mkA { a_st : store; a_max : ts; a_tbl : list (key * ts * ts) (* key, start, min_commit_ts of the lock *);
+                       a_sync : bool }.
 
 Inductive acmd :=
 | ABase (c : cmd)                                                              (* a request of the base protocol *)
 | AsyncPrewrite (ms : list mutation) (primary : key) (start fu : ts) (ttl req_mc : N) (ao : bool)
 | OnePC (ms : list mutation) (primary : key) (start fu : ts) (ttl req_mc : N) (ao : bool)
-| ACheckSecondary (ks : list key) (start : ts).
+| ACheckSecondary (ks : list key) (start : ts)
+| ATransfer (m : ts)      (* the region's leader moves: the new leader's max_ts is whatever it had seen (m, possibly stale or 0)
+                             and is not synced; async prewrites / 1PC are refused (MaxTimestampNotSynced) until ... *)
+| ARefresh (f : ts).      (* ... the new leader installs a fresh oracle timestamp f: max_ts := max(max_ts, f), synced *)
 
 (* the timestamp by which a base request bumps max_ts (the max-ts sentinel of a point get does not) *)
 Definition bump_ts (c : cmd) : ts :=
@@ -49,32 +55,39 @@ Definition resp_err (r : resp) : bool := match r with RErrs es => has_err es | _
 Definition abase (a : astore) (c : acmd) : list cmd :=
   match c with
   | ABase c => if commit_allowed (a_tbl a) c then [c] else []
-  | AsyncPrewrite ms p s fu ttl rmc ao => [Prewrite ms p s fu ttl (async_mc a s fu rmc) ao]
+  | AsyncPrewrite ms p s fu ttl rmc ao => if a_sync a then [Prewrite ms p s fu ttl (async_mc a s fu rmc) ao] else []
   | OnePC ms p s fu ttl rmc ao =>
     let pw := Prewrite ms p s fu ttl (async_mc a s fu rmc) ao in
-    if resp_err (snd (step (a_st a) pw)) then [pw] else [pw; Commit (lockable_keys ms) s (async_mc a s fu rmc)]
+    if a_sync a then
+      if resp_err (snd (step (a_st a) pw)) then [pw] else [pw; Commit (lockable_keys ms) s (async_mc a s fu rmc)]
+    else []
   | ACheckSecondary ks s =>
     [Rollback (filter (fun k => match own_lock (get_ks (a_st a) k) s with Some _ => false | None => negb (committed (a_st a) k s) end) ks) s]
+  | ATransfer _ | ARefresh _ => []
   end.
 
 Definition astep (a : astore) (c : acmd) : astore :=
   let st' := run_from (a_st a) (abase a c) in
   match c with
-  | ABase c0 => if commit_allowed (a_tbl a) c0 then mkA st' (N.max (a_max a) (bump_ts c0)) (a_tbl a) else a
+  | ABase c0 => if commit_allowed (a_tbl a) c0 then mkA st' (N.max (a_max a) (bump_ts c0)) (a_tbl a) (a_sync a) else a
   | AsyncPrewrite ms p s fu ttl rmc ao | OnePC ms p s fu ttl rmc ao =>
     let mc := async_mc a s fu rmc in
     let ok := negb (resp_err (snd (step (a_st a) (Prewrite ms p s fu ttl mc ao)))) in
-    mkA st' (N.max (a_max a) (N.max s fu)) (if ok then tbl_update (a_tbl a) (fresh_keys (a_st a) ms s) s mc else a_tbl a)
-  | ACheckSecondary _ _ => mkA st' (a_max a) (a_tbl a)
+    if a_sync a then
+      mkA st' (N.max (a_max a) (N.max s fu)) (if ok then tbl_update (a_tbl a) (fresh_keys (a_st a) ms s) s mc else a_tbl a) true
+    else a
+  | ACheckSecondary _ _ => mkA st' (a_max a) (a_tbl a) (a_sync a)
+  | ATransfer m => mkA (a_st a) m (a_tbl a) false
+  | ARefresh f => mkA (a_st a) (N.max (a_max a) f) (a_tbl a) true
   end.
 (* the min_commit_ts an async prewrite / 1PC returns (1PC: its commit ts) *)
 Definition returned_mc (a : astore) (c : acmd) : list ts :=
   match c with
-  | AsyncPrewrite _ _ s fu _ rmc _ | OnePC _ _ s fu _ rmc _ => [async_mc a s fu rmc]
+  | AsyncPrewrite _ _ s fu _ rmc _ | OnePC _ _ s fu _ rmc _ => if a_sync a then [async_mc a s fu rmc] else []
   | _ => []
   end.
 
-Definition a0 : astore := mkA [] 0 [].
+Definition a0 : astore := mkA [] 0 [] true.
 Definition arun_from (a : astore) (cs : list acmd) : astore := fold_left astep cs a.
 Definition arun (cs : list acmd) : astore := arun_from a0 cs.
 Fixpoint abase_run (a : astore) (cs : list acmd) : list cmd :=
@@ -83,14 +96,17 @@ Fixpoint abase_run (a : astore) (cs : list acmd) : list cmd :=
 (* what is still assumed about requests of the BASE protocol that follow a read of k at t (2PC prewrites: commit ts
    fetched from the oracle afterwards; or min_commit_ts rule obeyed by the client); nothing is assumed about async
    prewrites / 1PC *)
+(* ... and the timestamp a refresh installs was fetched from the oracle after the transfer, hence after t was issued *)
 Definition base_rule (k : key) (t : ts) (P : list (ts * ts)) (c : acmd) : bool :=
-  match c with ABase c0 => prewrite_rule k t P c0 | _ => true end.
+  match c with ABase c0 => prewrite_rule k t P c0 | ARefresh f => t <=? f | _ => true end.
 
 (* ------------------------------------------------------------------ the base store is a run of the issued commands *)
 Lemma astep_st a c : a_st (astep a c) = run_from (a_st a) (abase a c).
 Proof.
-  destruct c; cbn [astep abase a_st]; try reflexivity.
-  destruct (commit_allowed (a_tbl a) c); reflexivity.
+  destruct c; cbn [astep abase a_st]; cbv zeta; try reflexivity.
+  - destruct (commit_allowed (a_tbl a) c); reflexivity.
+  - destruct (a_sync a); reflexivity.
+  - destruct (a_sync a); reflexivity.
 Qed.
 
 Lemma run_from_app st x y : run_from st (x ++ y) = run_from (run_from st x) y.
@@ -111,16 +127,6 @@ Proof.
 Qed.
 
 (* ------------------------------------------------------------------ max_ts *)
-Lemma amax_step a c : a_max a <= a_max (astep a c).
-Proof.
-  destruct c; cbn [astep a_max]; try lia.
-  destruct (commit_allowed (a_tbl a) c); cbn [a_max]; lia.
-Qed.
-Lemma amax_mono : forall cs a, a_max a <= a_max (arun_from a cs).
-Proof.
-  induction cs as [|c r IH]; intros a; [cbn; lia|]. cbn [arun_from fold_left].
-  change (fold_left astep r (astep a c)) with (arun_from (astep a c) r). pose proof (amax_step a c). pose proof (IH (astep a c)). lia.
-Qed.
 (* a served point get (scan, batch get) leaves max_ts at or above its read ts *)
 Lemma read_bumps a c : key_pairs c = (fun _ => []) -> bump_ts c <= a_max (astep a (ABase c)).
 Proof.
@@ -205,18 +211,19 @@ Section AStable.
     In e (tbl_update tbl ks s mc).
   Proof. intros H Hn. unfold tbl_update. apply in_or_app; right. apply filter_In. split; [exact H|]. rewrite Hn. reflexivity. Qed.
 
-  Definition ainv (a : astore) : Prop := keys_sorted (a_st a) /\ t <= a_max a /\ good3 (a_st a) (a_tbl a).
+  (* max_ts covers the read ts whenever the region's leader is synced *)
+  Definition ainv (a : astore) : Prop := keys_sorted (a_st a) /\ (a_sync a = true -> t <= a_max a) /\ good3 (a_st a) (a_tbl a).
 
   (* the prewrite of an async prewrite / 1PC *)
   Lemma async_prewrite_step a ms p s fu ttl rmc ao :
     let mc := async_mc a s fu rmc in
     let pw := Prewrite ms p s fu ttl mc ao in
     let ok := negb (resp_err (snd (step (a_st a) pw))) in
-    ainv a ->
+    ainv a -> a_sync a = true ->
     safe_step_k (a_st a) pw k t = true /\
     good3 (fst (step (a_st a) pw)) (if ok then tbl_update (a_tbl a) (fresh_keys (a_st a) ms s) s mc else a_tbl a).
   Proof.
-    intros mc pw ok [Hs [Hmax Hg]]. split.
+    intros mc pw ok [Hs [Hmax0 Hg]] Hsy. pose proof (Hmax0 Hsy) as Hmax. split.
     - unfold safe_step_k. cbn [gc_ok pw andb key_pairs]. destruct (lock_of (a_st a) k); [|reflexivity]. apply orb_true_r.
     - subst ok. destruct (resp_err (snd (step (a_st a) pw))) eqn:Ee; cbn [negb].
       + (* refused: nothing changed *)
@@ -240,25 +247,27 @@ Section AStable.
     base_rule k t P c = true ->
     stable_suffix_k (a_st a) k t (abase a c) = true /\ ainv (astep a c).
   Proof.
-    intros Hi Hinc Hgc Hrule. pose proof Hi as [Hs [Hmax Hg]]. pose proof (amax_step a c) as Hmono.
-    destruct c as [c|ms p s fu ttl rmc ao|ms p s fu ttl rmc ao|ks s].
+    intros Hi Hinc Hgc Hrule. pose proof Hi as [Hs [Hmax Hg]].
+    destruct c as [c|ms p s fu ttl rmc ao|ms p s fu ttl rmc ao|ks s|m|f].
     - (* base request *)
       cbn [abase astep] in *. destruct (commit_allowed (a_tbl a) c) eqn:Ea; [|split; [reflexivity|exact Hi]].
       cbn [flat_map forallb stable_suffix_k] in *. rewrite app_nil_r in Hinc. rewrite andb_true_r in *.
       split; [eapply allowed_safe; eassumption|].
-      split; [apply (step_kstep (a_st a) c Hs)|]. split; [cbn [a_max]; lia|]. cbn [a_st a_tbl run_from fold_left].
+      split; [apply (step_kstep (a_st a) c Hs)|]. split; [cbn [a_max a_sync]; intros Hsy; specialize (Hmax Hsy); lia|]. cbn [a_st a_tbl run_from fold_left].
       apply (step_good3 (a_st a) c (a_tbl a)); [exact Hs|exact Hg|intros; right; assumption|].
       intros ms p s fu ttl mc ao m Ec Hin Ek _. left. subst c. cbn [base_rule] in Hrule. eapply prewrite_rule_above; eassumption.
     - (* async prewrite *)
-      destruct (async_prewrite_step a ms p s fu ttl rmc ao Hi) as [Hsafe Hgood].
-      cbn [abase astep]. cbv zeta. cbn [stable_suffix_k a_st a_tbl a_max run_from fold_left]. rewrite Hsafe. split; [reflexivity|].
-      split; [apply (step_kstep (a_st a) _ Hs)|]. split; [cbn [a_max]; lia|exact Hgood].
+      cbn [abase astep]. cbv zeta. destruct (a_sync a) eqn:Esy; [|split; [reflexivity|exact Hi]].
+      destruct (async_prewrite_step a ms p s fu ttl rmc ao Hi Esy) as [Hsafe Hgood]. specialize (Hmax eq_refl).
+      cbn [stable_suffix_k a_st a_tbl a_max run_from fold_left]. rewrite Hsafe. split; [reflexivity|].
+      split; [apply (step_kstep (a_st a) _ Hs)|]. split; [cbn [a_max]; intros _; lia|exact Hgood].
     - (* 1PC: prewrite, then commit at the computed ts *)
-      destruct (async_prewrite_step a ms p s fu ttl rmc ao Hi) as [Hsafe Hgood].
-      cbn [abase astep] in *. cbv zeta in *. set (mc := async_mc a s fu rmc) in *. set (pw := Prewrite ms p s fu ttl mc ao) in *.
+      cbn [abase astep] in *. cbv zeta in *. destruct (a_sync a) eqn:Esy; [|split; [reflexivity|exact Hi]].
+      destruct (async_prewrite_step a ms p s fu ttl rmc ao Hi Esy) as [Hsafe Hgood]. specialize (Hmax eq_refl).
+      cbv zeta in *. set (mc := async_mc a s fu rmc) in *. set (pw := Prewrite ms p s fu ttl mc ao) in *.
       destruct (resp_err (snd (step (a_st a) pw))) eqn:Ee; cbn [negb] in *.
       + cbn [stable_suffix_k a_st a_tbl a_max run_from fold_left]. rewrite Hsafe. split; [reflexivity|].
-        split; [apply (step_kstep (a_st a) _ Hs)|]. split; [cbn [a_max]; lia|exact Hgood].
+        split; [apply (step_kstep (a_st a) _ Hs)|]. split; [cbn [a_max]; intros _; lia|exact Hgood].
       + cbn [stable_suffix_k a_st a_tbl a_max run_from fold_left]. rewrite Hsafe. cbn [andb].
         assert (Hs1 : keys_sorted (fst (step (a_st a) pw))) by (apply (step_kstep (a_st a) _ Hs)).
         assert (Hlt : t < mc) by (pose proof (async_mc_above a s fu rmc); subst mc; lia).
@@ -267,13 +276,18 @@ Section AStable.
           destruct (lock_of (fst (step (a_st a) pw)) k) as [l|]; [|reflexivity]. apply orb_true_iff; right.
           destruct (existsb (N.eqb k) (lockable_keys ms)); [|reflexivity]. unfold pairs_above. cbn [forallb fst snd].
           rewrite andb_true_r. apply orb_true_iff; right. apply N.ltb_lt; exact Hlt.
-        * split; [apply (step_kstep _ _ Hs1)|]. split; [cbn [a_max]; lia|].
+        * split; [apply (step_kstep _ _ Hs1)|]. split; [cbn [a_max]; intros _; lia|].
           eapply step_good3; [exact Hs1|exact Hgood|intros; right; assumption|]. intros; discriminate.
     - (* CheckSecondaryLocks: rollback records for the missing locks *)
       cbn [abase astep stable_suffix_k a_st a_tbl a_max run_from fold_left]. split.
       + rewrite andb_true_r. unfold safe_step_k. cbn [gc_ok andb key_pairs]. destruct (lock_of (a_st a) k); [|reflexivity]. apply orb_true_r.
       + split; [apply (step_kstep (a_st a) _ Hs)|]. split; [exact Hmax|].
         eapply step_good3; [exact Hs|exact Hg|intros; right; assumption|]. intros; discriminate.
+    - (* leader transfer: max_ts is unknown, nothing async is served until the refresh *)
+      cbn [abase astep stable_suffix_k]. split; [reflexivity|]. split; [exact Hs|]. split; [cbn [a_sync]; discriminate|exact Hg].
+    - (* refresh with a timestamp issued after t *)
+      cbn [abase astep stable_suffix_k base_rule] in *. apply N.leb_le in Hrule.
+      split; [reflexivity|]. split; [exact Hs|]. split; [cbn [a_max]; intros _; lia|exact Hg].
   Qed.
 
   Lemma arun_stable : forall b a, ainv a -> incl (flat_map cmd_pairs (abase_run a b)) P ->
@@ -307,7 +321,7 @@ Proof.
   split; [exact E|]. rewrite E, EA. apply read_stable_k; [exact Ho|]. rewrite <- EA.
   destruct (oracle_app_wf _ _ Ho) as [HW [Hwf _]]. rewrite <- EA in Hwf.
   apply arun_stable with (P := flat_map cmd_pairs B); [|apply incl_refl|exact Hgc|exact Hrule].
-  split; [exact (proj1 Hwf)|]. split; [exact Hmax|].
+  split; [exact (proj1 Hwf)|]. split; [intros _; exact Hmax|].
   intros l El. unfold met_rule in Hmet. rewrite El in Hmet.
   apply orb_true_iff in Hmet. destruct Hmet as [Hmet|Hmet]; [|right; left; exact Hmet].
   apply orb_true_iff in Hmet. destruct Hmet as [Hmet|Hmet]; [left; apply negb_true_iff; exact Hmet|right; left].
@@ -326,6 +340,8 @@ Definition acmd_ok (T : ts) (c : acmd) : bool :=
   | ABase c0 => bump_ts c0 <=? T
   | AsyncPrewrite _ _ s fu _ rmc _ | OnePC _ _ s fu _ rmc _ => (s <=? T) && (fu <=? T) && (rmc <=? T + 1)
   | ACheckSecondary _ _ => true
+  | ATransfer m => m <=? T        (* the new leader has only seen timestamps the oracle issued *)
+  | ARefresh f => f =? T          (* the refresh installs the timestamp just fetched from the oracle *)
   end.
 Inductive jev :=
 | JTso (t : ts)        (* the oracle issues t *)
@@ -345,13 +361,17 @@ Fixpoint jrules (a : astore) (T : ts) (ret : list ts) (tr : list jev) : bool :=
 Lemma astep_bound a T c : acmd_ok T c = true -> a_max a <= T ->
   a_max (astep a c) <= T /\ forall x, In x (returned_mc a c) -> x <= T + 1.
 Proof.
-  intros Hok Hm. destruct c as [c|ms p s fu ttl rmc ao|ms p s fu ttl rmc ao|ks s]; cbn [acmd_ok returned_mc astep] in *.
+  intros Hok Hm. destruct c as [c|ms p s fu ttl rmc ao|ms p s fu ttl rmc ao|ks s|m|f]; cbn [acmd_ok returned_mc astep] in *.
   - split; [|intros x []]. apply N.leb_le in Hok. destruct (commit_allowed (a_tbl a) c); cbn [a_max]; lia.
   - apply andb_true_iff in Hok. destruct Hok as [Hok H3]. apply andb_true_iff in Hok. destruct Hok as [H1 H2].
-    apply N.leb_le in H1, H2, H3. cbv zeta. cbn [a_max]. split; [lia|]. intros x [E|[]]. subst x. unfold async_mc. lia.
+    apply N.leb_le in H1, H2, H3. cbv zeta. destruct (a_sync a); [|split; [exact Hm|intros x []]].
+    cbn [a_max]. split; [lia|]. intros x [E|[]]. subst x. unfold async_mc. lia.
   - apply andb_true_iff in Hok. destruct Hok as [Hok H3]. apply andb_true_iff in Hok. destruct Hok as [H1 H2].
-    apply N.leb_le in H1, H2, H3. cbv zeta. cbn [a_max]. split; [lia|]. intros x [E|[]]. subst x. unfold async_mc. lia.
+    apply N.leb_le in H1, H2, H3. cbv zeta. destruct (a_sync a); [|split; [exact Hm|intros x []]].
+    cbn [a_max]. split; [lia|]. intros x [E|[]]. subst x. unfold async_mc. lia.
   - cbn [a_max]. split; [exact Hm|intros x []].
+  - apply N.leb_le in Hok. cbn [a_max]. split; [exact Hok|intros x []].
+  - apply N.eqb_eq in Hok. cbn [a_max]. split; [lia|intros x []].
 Qed.
 
 Lemma jprefix : forall p a T ret rest, jrules a T ret (p ++ rest) = true -> a_max a <= T -> (forall x, In x ret -> x <= T + 1) ->
@@ -381,9 +401,24 @@ Proof.
   cbn [jrules] in H2. apply andb_true_iff in H2. destruct H2 as [Hlt _]. apply N.ltb_lt in Hlt. lia.
 Qed.
 
-(* once a point get at t (not the max-ts sentinel) was served, max_ts stays at or above t *)
-Lemma served_get_max a k t rs x : t <> max_ts -> t <= a_max (arun_from (astep a (ABase (Get k t rs))) x).
+(* a served point get at t (not the max-ts sentinel) leaves max_ts at or above t *)
+Lemma served_get_max a k t rs : t <> max_ts -> t <= a_max (astep a (ABase (Get k t rs))).
 Proof.
   intros Hne. pose proof (read_bumps a (Get k t rs) eq_refl) as H. cbn [bump_ts] in H.
-  destruct (N.eqb_spec t max_ts); [contradiction|]. pose proof (amax_mono x (astep a (ABase (Get k t rs)))). lia.
+  destruct (N.eqb_spec t max_ts); [contradiction|]. exact H.
+Qed.
+
+(* the refresh rule of [base_rule] follows from the joint-trace rules: once the oracle has issued t, every later refresh
+   installs a timestamp >= t *)
+Fixpoint reqs_of (tr : list jev) : list acmd :=
+  match tr with [] => [] | JReq c :: r => c :: reqs_of r | _ :: r => reqs_of r end.
+Lemma jrules_refresh t : forall tr a T ret, jrules a T ret tr = true -> t <= T ->
+  forallb (fun c => match c with ARefresh f => t <=? f | _ => true end) (reqs_of tr) = true.
+Proof.
+  induction tr as [|[t'|c|c] r IH]; intros a T ret H HT; cbn [jrules reqs_of forallb] in *; [reflexivity| | |];
+    apply andb_true_iff in H; destruct H as [H1 H2].
+  - apply N.ltb_lt in H1. apply (IH a t' ret H2). lia.
+  - apply andb_true_iff; split; [|apply (IH _ _ _ H2 HT)].
+    destruct c; try reflexivity. cbn [acmd_ok] in H1. apply N.eqb_eq in H1. apply N.leb_le. lia.
+  - apply (IH a T ret H2 HT).
 Qed.
